@@ -3,6 +3,7 @@ package mon
 import (
 	"bytes"
 	"errors"
+	"io"
 
 	"verif/core"
 	"verif/gen"
@@ -95,6 +96,19 @@ type faultStringWriter struct{ *faultWriter }
 
 func (w faultStringWriter) WriteString(s string) (int, error) { return w.write([]byte(s)) }
 
+var poisonTrees [][]*cm.RootBlock
+
+// formatPoison returns pre-parsed documents whose formatting ends in unusual writer states.
+func formatPoison() [][]*cm.RootBlock {
+	if poisonTrees == nil {
+		for _, d := range []string{"2024\n", "- a\n  - b\n    > 12", "1. 7", "> 99\n> 100", "# 5", "```\ncode\n```\n\n123456789", "a\n\n- 1\n\n  2\n"} {
+			b, _ := cm.Parse([]byte(d))
+			poisonTrees = append(poisonTrees, b)
+		}
+	}
+	return poisonTrees
+}
+
 func (c20) Check(ctx *core.Ctx, c *core.Case) {
 	rnd := core.NewRand(c.Seed)
 	if c.Gen == "model" {
@@ -111,6 +125,13 @@ func (c20) Check(ctx *core.Ctx, c *core.Case) {
 		ctx.Violation("error_on_healthy", "Format to a bytes.Buffer returned %v", err)
 		return
 	}
+	// Between the two runs another document is formatted that leaves every piece of writer
+	// state in a non-default condition (a last line of digits only, open containers, pending
+	// breaks): "the same bytes every time" must not depend on what was formatted before
+	// (seeded changes C20-j and C19-i: a pooled writer that keeps its digit counter).
+	poison := formatPoison()
+	format.Format(io.Discard, poison[int(c.Seed%uint64(len(poison)))])
+	ctx.Inc("format_runs_after_a_poisoning_document")
 	if err := format.Format(&b2, blocks); err != nil || !bytes.Equal(b1.Bytes(), b2.Bytes()) {
 		ctx.Violation("nondeterministic", "two Format runs differ: %s vs %s (err %v)", core.Quote(b1.Bytes()), core.Quote(b2.Bytes()), err)
 		return
